@@ -83,6 +83,17 @@ impl ResourceRequestVariants {
     pub fn new_simple(rq: ResourceRequest) -> ResourceRequestVariants {
         ResourceRequestVariants::new(smallvec![rq])
     }
+    pub fn validate(&self) -> crate::Result<()> {
+        if self.variants.is_empty() {
+            return Err(DsError::GenericError(
+                "Resource request has no variants".to_string(),
+            ));
+        }
+        for rq in &self.variants {
+            rq.validate()?;
+        }
+        Ok(())
+    }
     pub fn min_time(&self) -> Duration {
         self.variants
             .iter()
